@@ -795,7 +795,12 @@ func capPair(c *mon.Case) {
 		if contains && b && out(A) {
 			c.Violation("cap/Contains/true-but-point-outside/"+mon.Severity(outsideBy(A, p)), "A.Contains(B) but a point of B is outside A: "+gen.Hex(p), desc())
 		}
-		if oa := outsideBy(A, p); !A.IsEmpty() {
+		// float estimate first; the 320-bit measurement only where the answer could depend on it
+		oa := float64(s2.ChordAngleBetweenPoints(A.Center(), p)) - chord2(A)
+		if math.Abs(oa) < 1e-12 {
+			oa = outsideBy(A, p)
+		}
+		if !A.IsEmpty() {
 			if ip := A.InteriorContainsPoint(p); ip && !a {
 				c.Violation("cap/InteriorContainsPoint/true-but-not-contained/wrong-answer", "InteriorContainsPoint is true but ContainsPoint is false for "+gen.Hex(p), desc())
 			} else if ip && oa > capSlack {
